@@ -20,7 +20,8 @@ use tokio::io::{AsyncRead, AsyncWrite, ReadBuf};
 
 struct TInner {
     available: VecDeque<u8>,
-    received: Vec<u8>,
+    /// bytes accepted by the transport, tagged with the connection (generation) that accepted them
+    received: Vec<(u64, Vec<u8>)>,
     reads: usize,
     writes: usize,
     flushes: usize,
@@ -90,7 +91,7 @@ impl AsyncWrite for TStream {
             _ => Ok(data.len()),
         };
         g.writes += 1;
-        if let Ok(n) = &result { let n = *n; g.received.extend_from_slice(&data[..n]); }
+        if let Ok(n) = &result { let n = *n; let generation = self.generation; g.received.push((generation, data[..n].to_vec())); }
         g.io_log.push(format!("write#{}({}) -> {:?}", index, data.len(), result.as_ref().map_err(|e| e.kind())));
         Poll::Ready(result)
     }
@@ -202,6 +203,7 @@ async fn run(plan: Plan) -> Outcome {
     let mut restart_pending = false;
     let mut connection_open = false;
     let mut connections_seen = 0usize;
+    let mut broker_generation = 0u64;
     let mut idle_rounds = 0usize;
     let mut round = 0usize;
     let mut last_events = 0usize;
@@ -210,9 +212,20 @@ async fn run(plan: Plan) -> Outcome {
     for _ in 0..600 {
         settle(&inner, &extra_activity).await;
         // bytes the transport received go to the broker
-        let (received, dropped, connections) = { let mut g = inner.lock().unwrap(); (std::mem::take(&mut g.received), g.dropped, g.connections) };
-        if connections > connections_seen { connections_seen = connections; broker.open_connection(); connection_open = true; }
-        broker.client_bytes(&received);
+        let (received_log, dropped, connections, current_generation) = { let mut g = inner.lock().unwrap(); (std::mem::take(&mut g.received), g.dropped, g.connections, g.generation) };
+        let received_any = !received_log.is_empty();
+        for (generation, bytes) in received_log {
+            if generation > broker_generation {
+                if connection_open { broker.close_connection(); }
+                broker.open_connection(); connection_open = true; broker_generation = generation;
+            }
+            broker.client_bytes(&bytes);
+        }
+        if connections > connections_seen {
+            connections_seen = connections;
+            if current_generation > broker_generation { if connection_open { broker.close_connection(); } broker.open_connection(); connection_open = true; broker_generation = current_generation; }
+        }
+        let received: Vec<u8> = if received_any { vec![1] } else { Vec::new() };
         if dropped && connection_open {
             connection_open = false; broker.close_connection();
             if let Some(control) = plan.on_drop.get(&drops) {
@@ -311,7 +324,10 @@ async fn run(plan: Plan) -> Outcome {
         out.reads = g.reads; out.writes = g.writes; out.flushes = g.flushes; out.io_log = g.io_log.clone();
         let received = g.received.clone();
         drop(g);
-        broker.client_bytes(&received);
+        for (generation, bytes) in received {
+            if generation > broker_generation { if connection_open { broker.close_connection(); } broker.open_connection(); connection_open = true; broker_generation = generation; }
+            broker.client_bytes(&bytes);
+        }
     }
     out.iterations = round;
     out.connections = broker.connections.len();
